@@ -73,7 +73,8 @@ IMPL('impl<B> Inner<B>', raw='''
         &&& (self.call is WithoutBody || self.call is WithBody)
         &&& (self.should_send_body <==> self.call is WithBody)
         &&& (self.call is WithBody ==> !(self.bstate().writer.mode is None))
-        &&& (self.call is WithoutBody ==> self.bstate().writer.mode is None && self.bstate().writer.ended)
+        &&& (self.call is WithoutBody ==> self.bstate().writer.mode is None && self.bstate().writer.ended && !self.bstate().skip_method_body_check
+                && !method_needs_body(self.call.req().request.spec_method()))
         &&& (self.bstate().phase is SendLine || self.bstate().phase is SendHeaders || self.bstate().phase is SendBody)
         &&& (if self.call.analyzed() { phase_ok(&self.call.req(), self.bstate().phase) } else { self.bstate().phase is SendLine })
         &&& self.bstate().reader is None
@@ -175,3 +176,48 @@ pub proof fn axiom_flow_literals()
     ensures lower(lit("expect")) == lit("expect"), lower(lit("connection")) == lit("connection"),
 {}
 ''')
+
+# ------------------------------------------------------------------------------------------------ SEND REQUEST
+IMPL('impl<B> Flow<B, SendRequest>', raw='''
+    /// C02: the request can name its host
+    pub open spec fn has_host_source(&self) -> bool {
+        self.inner.call.req().eff_uri().spec_host() is Some || crate::http::first_value(self.inner.call.req().eff(), lit("host")) is Some
+    }
+''')
+FN('write', props=['C02', 'C17', 'C01', 'C16', 'C09'], ret='r',
+   requires=[('C09.wf', 'old(self).inner.wf_sending()'), ('C02.quantifier_request_names_its_host', 'old(self).has_host_source()')],
+   ensures=[
+       ('C09.wf_preserved', 'final(self).inner.wf_sending() && final(self).has_host_source() && old(self).inner.same_facts(&final(self).inner) && final(output).len() == old(output).len()'),
+       ('C02.head_bytes', '''match r {
+            Ok(n) => n <= old(output).len() && final(self).inner.call.analyzed() && (old(self).inner.call.analyzed() ==> final(self).inner.call.req() == old(self).inner.call.req())
+                && head_step(&final(self).inner.call.req(), old(self).inner.bstate().phase, final(self).inner.bstate().phase, final(output)@.subrange(0, n as int)),
+            Err(e) => final(self).inner.bstate().phase == old(self).inner.bstate().phase
+                && (e == Error::OutputOverflow || (!old(self).inner.call.analyzed() && final(self).inner == old(self).inner)),
+        }'''),
+       ('C17.rejected_before_any_byte', '!old(self).inner.call.analyzed() && r is Err && !(r->Err_0 == Error::OutputOverflow) ==> final(self).inner == old(self).inner && final(output)@ == old(output)@'),
+       ('C02.maximal', 'r is Ok && (final(self).inner.bstate().phase is SendLine || final(self).inner.bstate().phase is SendHeaders) ==> r->Ok_0 + next_line(&final(self).inner.call.req(), final(self).inner.bstate().phase).len() > old(output).len()'),
+       ('C02.flow_write_after_complete_emits_nothing', 'old(self).inner.call.analyzed() && old(self).inner.bstate().phase is SendBody ==> r == Ok::<usize, Error>(0usize) && final(self).inner == old(self).inner'),
+   ],
+   rewrites=[('N5', 'v.write(&[], output).map(|r| r.1)', 'v.write(&[], output).map(|r: (usize, usize)| -> (n: usize) ensures n == r.1 { r.1 })')],
+   )
+FN('method', props=['C15'], ret='r', requires=[('C09.wf', 'self.inner.wf_sending()')], ensures=[('aux.SendRequest.method', '*r == self.inner.call.req().request.spec_method()')])
+FN('uri', props=['C14'], ret='r', requires=[('C09.wf', 'self.inner.wf_sending()')], ensures=[('aux.SendRequest.uri', '*r == self.inner.call.req().eff_uri()')])
+FN('version', props=['C17'], ret='r', requires=[('C09.wf', 'self.inner.wf_sending()')], ensures=[('aux.SendRequest.version', 'r == self.inner.call.req().request.spec_version()')])
+FN('can_proceed', props=['C09', 'C02'], ret='r',
+   requires=[('C09.wf', 'self.inner.wf_sending()')],
+   ensures=[('C09.can_proceed_iff_head_complete', 'r == (self.inner.bstate().phase is SendBody)')])
+FN('proceed', props=['C09', 'C11'], ret='r', mutself=True,
+   requires=[('C09.wf', 'self.inner.wf_sending()')],
+   ensures=[
+       ('C09.proceed_iff_can_proceed', '(r is Ok && r->Ok_0 is None) <==> !(self.inner.bstate().phase is SendBody)'),
+       ('C09.edge_after_head', '''self.inner.bstate().phase is SendBody ==> match r {
+            Ok(Some(SendRequestResult::Await100(f))) => self.inner.should_send_body && self.inner.await_100_continue && f.inner == self.inner && f.inner.wf_await100(),
+            Ok(Some(SendRequestResult::SendBody(f))) => self.inner.should_send_body && !self.inner.await_100_continue && f.inner == self.inner && f.inner.wf_send_body(),
+            Ok(Some(SendRequestResult::RecvResponse(f))) => !self.inner.should_send_body && f.inner.wf_recv_response() && self.inner.same_facts(&f.inner)
+                && f.inner.call.req() == self.inner.call.req() && f.inner.bstate().reader is None,
+            Ok(None) => false,
+            Err(_) => false,
+        }'''),
+   ],
+   )
+END()
